@@ -48,7 +48,7 @@ REQUIRED = ["tree_resamplings", "branches_checked", "sample_points_checked", "ze
             "two_node_branches_longer_than_spacing", "exact_multiple_spacings", "root_one_child",
             "non_soma_roots", "instance_reused", "branch_isometric_checked", "integer_coordinate_branches",
             "branch_linear_checked", "branch_smoother_checked", "tree_smoother_checked", "assembler_identity_checked",
-            "tap_assembler", "tap_resample"]
+            "tap_assembler", "tap_resample", "rejected_calls_before_resampling"]
 FLOOR = {"quick": 850, "thorough": 17000}
 SHARDS = {"quick": 8, "thorough": 16}
 TOL = 1e-4
@@ -248,6 +248,8 @@ def exec_tree(ctx, case):
         rs = IsometricResampler(int(spacing))
     else:
         rs = IsometricResampler(spacing)
+    if case["tree"]["seed"] % 2:
+        _rejected_call_first(ctx, rs)
     out = rs(tree)
     ctx.count("tree_resamplings")
     if check_resampled_tree(ctx, case, tree, out, spacing, f"IsometricResampler({spacing:.6g})"):
@@ -267,6 +269,31 @@ def exec_tree(ctx, case):
         check_resampled_tree(ctx, case, out, out3, spacing, "resampling of a resampled tree")
 
 
+def _odd_tree(names=None):
+    from swcgeom.core import Tree
+    from swcgeom.core.swc import SWCNames
+
+    nm = names or SWCNames()
+    cols = {nm.id: np.arange(8), nm.type: np.array([1, 3, 3, 3, 3, 3, 3, 3]),
+            nm.x: np.array([0, 2, 4, 6, 8, 6, 8, 2], dtype=np.float32) + 10,
+            nm.y: np.array([0, 0, 1, 3, 4, -2, -5, 5], dtype=np.float32) - 10,
+            nm.z: np.array([0, 1, 0, 2, 2, 0, 1, 0], dtype=np.float32),
+            nm.r: np.array([3, 1, 1, 0.8, 0.5, 0.7, 0.4, 0.6], dtype=np.float32),
+            nm.pid: np.array([-1, 0, 1, 2, 3, 2, 5, 0])}
+    return Tree(8, names=names, **cols)
+
+
+def _rejected_call_first(ctx, transform):
+    """An earlier call of the same transform object that fails half-way (one tree of a batch the
+    transform cannot handle: other column names; the caller's try/except skips it)."""
+    from swcgeom.core.swc import SWCNames
+
+    try:
+        transform(_odd_tree(SWCNames(id="n", pid="parent")))
+    except Exception:
+        ctx.count("rejected_calls_before_resampling")
+
+
 def exec_assembler(ctx, case):
     """BranchTreeAssembler on an untouched branch tree gives back the same attributed tree (up to
     numbering): every node once, same parent relation, same types and radii."""
@@ -282,7 +309,16 @@ def exec_assembler(ctx, case):
         return
     tree = G.build(spec, with_tag=False)
     fp = contracts.fingerprint(tree)
-    out = BranchTreeAssembler()(BranchTree.from_tree(tree))
+    asm = BranchTreeAssembler()
+    if case["tree"]["seed"] % 2:
+        bad = BranchTree.from_tree(_odd_tree())
+        k_ = max(bad.branches)
+        bad.branches[k_] = bad.branches[k_][:-1]  # an inconsistent branch tree: rejected
+        try:
+            asm(bad)
+        except Exception:
+            ctx.count("rejected_calls_before_resampling")
+    out = asm(BranchTree.from_tree(tree))
     ctx.count("assembler_identity_checked")
     wf = topo.well_formed(out.id(), out.pid())
     if wf:
